@@ -103,6 +103,9 @@ func nearMiss(ver string, k int) string {
 }
 
 type Plan struct {
+	// Other is the directory of an earlier Server of the same process (started, asked for everything it
+	// stores, closed before the server under examination starts); it disagrees with Mods on purpose.
+	Other   []ModVer    `json:"other,omitempty"`
 	Mods    []ModVer    `json:"mods"`
 	Clients [][]Req     `json:"clients"`
 	Sched   simrt.Sched `json:"sched"`
@@ -138,6 +141,30 @@ func genPlan(t *rapid.T, tier string) any {
 			m.Files = append(m.Files, f)
 		}
 		p.Mods = append(p.Mods, m)
+	}
+	if rapid.IntRange(0, 3).Draw(t, "other") == 0 {
+		for _, m := range p.Mods {
+			if rapid.Bool().Draw(t, "othersame") {
+				o := m
+				o.Files = nil
+				for _, f := range m.Files {
+					o.Files = append(o.Files, FileSpec{Name: f.Name, Body: (f.Body + 1) % 6})
+				}
+				o.Layout = rapid.SampledFrom([]string{"txt", "txtar", "dir"}).Draw(t, "otherlayout")
+				p.Other = append(p.Other, o)
+			}
+		}
+		if rapid.Bool().Draw(t, "otherextra") {
+			o := ModVer{Path: rapid.IntRange(0, len(paths)-1).Draw(t, "opath"), Ver: rapid.IntRange(0, len(versions)-1).Draw(t, "over"), Layout: "txt",
+				Files: []FileSpec{{Name: 1, Body: 2}}}
+			dup := false
+			for _, m := range p.Other {
+				dup = dup || (m.Path == o.Path && m.Ver == o.Ver)
+			}
+			if !dup {
+				p.Other = append(p.Other, o)
+			}
+		}
 	}
 	genReq := func() Req {
 		r := Req{}
@@ -189,6 +216,18 @@ func genPlan(t *rapid.T, tier string) any {
 		for k := 0; k < n; k++ {
 			rs = append(rs, genReq())
 		}
+		p.Clients = append(p.Clients, rs)
+	}
+	if rapid.IntRange(0, 5).Draw(t, "storm") == 0 {
+		// one client probes many module paths that do not exist (as cmd/go does when it resolves
+		// every prefix of an import path), then asks for something that may be stored
+		var rs []Req
+		n := rapid.IntRange(10, 24).Draw(t, "stormsize")
+		for k := 0; k < n; k++ {
+			ext := rapid.SampledFrom([]string{"info", "mod", "zip"}).Draw(t, "stormext")
+			rs = append(rs, Req{Kind: "raw", Raw: fmt.Sprintf("/mod/example.com/a/sub%d/@v/v1.0.0.%s", k, ext)})
+		}
+		rs = append(rs, genReq(), genReq())
 		p.Clients = append(p.Clients, rs)
 	}
 	p.Sched = gen.Sched(t, 300)
@@ -276,8 +315,27 @@ func run(t *testing.T, plan any, keep bool) *simcheck.Outcome {
 	simos.SetClassifier(func(p string) string { return "mod" })
 	defer simos.SetClassifier(simos.DefaultClass)
 
-	// lay the modules out on disk (raw OS: this is the input, not the system under test)
-	for _, m := range p.Mods {
+	layout(dir, p.Mods)
+	other := filepath.Join(base, "c20-other")
+	os.RemoveAll(other)
+	if len(p.Other) > 0 {
+		os.MkdirAll(other, 0o777)
+		layout(other, p.Other)
+	}
+	find := func(path, ver int) *ModVer {
+		for i := range p.Mods {
+			if p.Mods[i].Path == path && p.Mods[i].Ver == ver {
+				return &p.Mods[i]
+			}
+		}
+		return nil
+	}
+	return runWith(t, p, out, dir, other, keep, find)
+}
+
+// layout writes the modules to disk (raw OS: this is the input, not the system under test).
+func layout(dir string, mods []ModVer) {
+	for _, m := range mods {
 		name := strings.ReplaceAll(escape(paths[m.Path]), "/", "_") + "_" + escape(versions[m.Ver])
 		type ent struct {
 			name string
@@ -306,15 +364,9 @@ func run(t *testing.T, plan any, keep bool) *simcheck.Outcome {
 	// some unrelated entries in the directory
 	os.WriteFile(filepath.Join(dir, "README"), []byte("not a module\n"), 0o666)
 	os.WriteFile(filepath.Join(dir, "noversion.txt"), []byte("-- .mod --\nmodule x\n"), 0o666)
+}
 
-	find := func(path, ver int) *ModVer {
-		for i := range p.Mods {
-			if p.Mods[i].Path == path && p.Mods[i].Ver == ver {
-				return &p.Mods[i]
-			}
-		}
-		return nil
-	}
+func runWith(t *testing.T, p *Plan, out *simcheck.Outcome, dir, other string, keep bool, find func(path, ver int) *ModVer) *simcheck.Outcome {
 	want := func(r Req) (string, expect) {
 		if r.Kind == "raw" {
 			return r.Raw, expect{code: 404}
@@ -375,8 +427,27 @@ func run(t *testing.T, plan any, keep bool) *simcheck.Outcome {
 		return url, expect{code: 200, zip: z}
 	}
 
-	requests, sharedFirst, gone, slow, unasserted := 0, 0, 0, 0, 0
+	requests, sharedFirst, gone, slow, unasserted, otherReqs := 0, 0, 0, 0, 0, 0
 	rep := simrt.Run(t, simrt.Options{Sched: p.Sched, Strict: true, MaxSteps: 200000, KeepTrace: keep}, func(s *simrt.Sim) {
+		if len(p.Other) > 0 {
+			// an earlier server of this process, over another directory: servers are independent of each other
+			srv0, err := goproxytest.NewServer(other, "")
+			if err != nil {
+				out.Violate("server-start", "NewServer on a well-formed directory failed: %v", err)
+				return
+			}
+			hp0 := strings.TrimSuffix(strings.TrimPrefix(srv0.URL, "http://"), "/mod")
+			simrt.Block("client.connect", func() bool { return simnet.Lookup(hp0) != nil })
+			h0 := simnet.Lookup(hp0)
+			for _, m := range p.Other {
+				for _, ext := range []string{"info", "mod", "zip"} {
+					u := "/mod/" + escape(paths[m.Path]) + "/@v/" + escape(versions[m.Ver]) + "." + ext
+					h0.ServeHTTP(httptest.NewRecorder(), httptest.NewRequest("GET", "http://"+hp0+u, nil))
+					otherReqs++
+				}
+			}
+			srv0.Close()
+		}
 		srv, err := goproxytest.NewServer(dir, "")
 		if err != nil {
 			out.Violate("server-start", "NewServer on a well-formed directory failed: %v", err)
@@ -500,6 +571,7 @@ func run(t *testing.T, plan any, keep bool) *simcheck.Outcome {
 	out.Nontrivial = rep.Switches > len(p.Clients)+3
 	out.SimSeconds = simtime.Offset().Seconds()
 	out.Count("requests", int64(requests))
+	out.Count("requests_to_an_earlier_server_of_the_process", int64(otherReqs))
 	out.Count("fault_client_gave_up", int64(gone))
 	out.Count("fault_slow_client", int64(slow))
 	out.Count("requests_by_commit_hash_unasserted", int64(unasserted))
@@ -576,8 +648,8 @@ var harness = &simcheck.Harness{
 	Property: "C20",
 	Level:    "exploration",
 	Rule: "rapid draws a module directory (1-5 module versions over 4 paths incl. upper-case and /v2, 8 versions incl. pre-release, pseudo, +incompatible, upper-case and invalid-for-path ones; " +
-		".txt, .txtar or directory layout; .info, .mod, nested files, top-level and nested dot files, empty files, files without final newline), then 2-5 client tasks with 1-5 requests each " +
-		"(list / .info / .mod / .zip of stored and absent versions, near-miss spellings of stored versions such as v1, v1.0, v1.0.0+meta, malformed URLs, requests naming the stored pseudo-version by its commit hash (unasserted disturbers), and client faults: a client that has given up before the handler runs (cancelled context, unasserted), slow clients whose headers or response writes take 1-120 simulated seconds against whatever time limits the server was configured with; two thirds of the clients share their first request) and a schedule; " +
+		".txt, .txtar or directory layout; .info, .mod, nested files, top-level and nested dot files, empty files, files without final newline), optionally an earlier Server of the same process over a directory that disagrees with this one (asked for everything it stores, then closed), then 2-5 client tasks with 1-5 requests each " +
+		"(list / .info / .mod / .zip of stored and absent versions, near-miss spellings of stored versions such as v1, v1.0, v1.0.0+meta, malformed URLs, a storm of 10-24 requests for distinct module paths that do not exist, requests naming the stored pseudo-version by its commit hash (unasserted disturbers), and client faults: a client that has given up before the handler runs (cancelled context, unasserted), slow clients whose headers or response writes take 1-120 simulated seconds against whatever time limits the server was configured with; two thirds of the clients share their first request) and a schedule; " +
 		"non-trivial = more context switches than clients+3; distinct by decision-trace hash",
 	Gen:     genPlan,
 	NewPlan: func() any { return &Plan{} },
